@@ -11,6 +11,8 @@
 #include "draco/mesh/mesh.h"
 #include "draco/mesh/triangle_soup_mesh_builder.h"
 #include "draco/point_cloud/point_cloud_builder.h"
+#include "draco/compression/expert_encode.h"
+#include "draco/metadata/geometry_metadata.h"
 using namespace draco;
 
 typedef std::vector<uint8_t> Bytes;
@@ -53,6 +55,42 @@ static std::unique_ptr<Mesh> gen_smooth_int_mesh(Rng &r, GenInfo &gi) {
   for (int j = 0; j + 1 < n; j++) for (int i = 0; i + 1 < n; i++) { if (r.chance(4)) continue; uint32_t a = j * n + i, b = a + 1, c = a + n, d = c + 1; Mesh::Face f1, f2;
     f1[0] = PointIndex(a); f1[1] = PointIndex(b); f1[2] = PointIndex(d); f2[0] = PointIndex(a); f2[1] = PointIndex(d); f2[2] = PointIndex(c); m->AddFace(f1); m->AddFace(f2); }
   for (int i = 0; i < m->num_attributes(); i++) { gi.uids.push_back(m->attribute(i)->unique_id()); gi.unquantized_uids.push_back(m->attribute(i)->unique_id()); }
+  return m;
+}
+// "odd" meshes for the per-attribute (ExpertEncoder) paths: 1..5 attributes in random order (POSITION anywhere, duplicate types allowed),
+// 1..6 components, int8..uint32 / float32, normalized flag at random, identity or explicit point->value maps with shared values,
+// per-vertex element types, attribute and geometry metadata; tiny sizes included (1 face, isolated points)
+struct OddAtt { int att_id; bool is_float; int nc; GeometryAttribute::Type type; };
+static std::unique_ptr<Mesh> gen_odd_mesh(Rng &r, GenInfo &gi, std::vector<OddAtt> &atts, bool with_faces = true) {
+  int w = (int)r.range(1, 6), h = (int)r.range(1, 6), np = (w + 1) * (h + 1) + (r.chance(20) ? (int)r.range(1, 3) : 0);   // + isolated points
+  std::unique_ptr<Mesh> m(new Mesh()); m->set_num_points(np);
+  int na = (int)r.range(1, 5), pos_at = (int)r.below(na);
+  static const GeometryAttribute::Type types[] = {GeometryAttribute::NORMAL, GeometryAttribute::COLOR, GeometryAttribute::TEX_COORD, GeometryAttribute::GENERIC, GeometryAttribute::GENERIC};
+  static const DataType dts[] = {DT_INT8, DT_UINT8, DT_INT16, DT_UINT16, DT_INT32, DT_UINT32, DT_FLOAT32, DT_FLOAT32};
+  for (int a = 0; a < na; a++) {
+    GeometryAttribute::Type t = a == pos_at ? GeometryAttribute::POSITION : types[r.below(5)];
+    DataType dt = a == pos_at ? (r.chance(70) ? DT_FLOAT32 : DT_INT32) : dts[r.below(8)];
+    int nc = t == GeometryAttribute::POSITION || t == GeometryAttribute::NORMAL ? 3 : (t == GeometryAttribute::TEX_COORD ? 2 : (int)r.range(1, 6));
+    if (t == GeometryAttribute::NORMAL) dt = DT_FLOAT32;
+    bool norm = dt != DT_FLOAT32 && r.chance(30); int sz = DataTypeLength(dt);
+    GeometryAttribute ga; ga.Init(t, nullptr, (uint8_t)nc, dt, norm, (int64_t)sz * nc, 0);
+    bool ident = a == pos_at ? true : r.chance(60); int nv = ident ? np : (int)r.range(1, np);
+    int id = m->AddAttribute(ga, ident, nv); PointAttribute *pa = m->attribute(id);
+    for (int v = 0; v < nv; v++) { uint8_t buf[64] = {0};
+      for (int c = 0; c < nc; c++) { int x = v % (w + 1), y = v / (w + 1);
+        if (dt == DT_FLOAT32) { float f = t == GeometryAttribute::POSITION ? (c == 0 ? (float)x + 0.03f * (float)((v * 7) % 5) : c == 1 ? (float)y : (float)((v * 5) % 7) / 3.f) : (float)r.range(-300, 300) / 37.f; if (t == GeometryAttribute::NORMAL) f = (c == v % 3) ? 1.f : 0.1f * (float)(c + 1); memcpy(buf + 4 * c, &f, 4); }
+        else { int64_t val = t == GeometryAttribute::POSITION ? (c == 0 ? x * 9 + (v % 3) : c == 1 ? y * 9 : (v * 5) % 11) - 20 : r.range(-100, 100); if (dt == DT_UINT8 || dt == DT_UINT16 || dt == DT_UINT32) val = val < 0 ? -val : val; memcpy(buf + sz * c, &val, sz); } }
+      pa->SetAttributeValue(AttributeValueIndex(v), buf); }
+    if (!ident) { pa->SetExplicitMapping(np); for (int p = 0; p < np; p++) pa->SetPointMapEntry(PointIndex(p), AttributeValueIndex((uint32_t)(r.chance(70) ? p % nv : r.below(nv)))); }
+    if (a != pos_at && ident && r.chance(25)) m->SetAttributeElementType(id, MESH_VERTEX_ATTRIBUTE);
+    if (r.chance(25)) { std::unique_ptr<AttributeMetadata> am(new AttributeMetadata()); am->AddEntryString("name", "att" + S(a)); am->AddEntryInt("k", a * 3 - 1); m->AddAttributeMetadata(id, std::move(am)); }
+    atts.push_back({id, dt == DT_FLOAT32, nc, t}); gi.uids.push_back(pa->unique_id());
+  }
+  if (r.chance(25)) { std::unique_ptr<GeometryMetadata> gm(new GeometryMetadata()); gm->AddEntryString("generator", "odd"); gm->AddEntryDouble("d", 0.5); if (m->GetMetadata() == nullptr) m->AddMetadata(std::move(gm)); }
+  if (!with_faces) return m;
+  auto id = [&](int x, int y) { return y * (w + 1) + x; };
+  for (int y = 0; y < h; y++) for (int x = 0; x < w; x++) { if (r.chance(10)) continue; Mesh::Face f1, f2; f1[0] = PointIndex(id(x, y)); f1[1] = PointIndex(id(x + 1, y)); f1[2] = PointIndex(id(x + 1, y + 1)); f2[0] = PointIndex(id(x, y)); f2[1] = PointIndex(id(x + 1, y + 1)); f2[2] = PointIndex(id(x, y + 1)); m->AddFace(f1); m->AddFace(f2); }
+  if (m->num_faces() == 0) { Mesh::Face f; f[0] = PointIndex(0); f[1] = PointIndex(1); f[2] = PointIndex(w + 2); m->AddFace(f); }
   return m;
 }
 // flavor 5: closed surface of genus 1 (w x h grid wrapped both ways) with its faces in random order: the Edgebreaker traversal then
